@@ -132,6 +132,24 @@ def _cap(case, cap):
     return case
 
 
+def grid(tier):
+    """Fixed vibronic systems that exercise the deep corners at every seed: a strongly displaced mode with many levels,
+    modes on two molecules with the two-exciton band, nearly equal Huang-Rhys factors, a rebuilt aggregate."""
+    def mode(w, hr20, n0, n1, neg=False, hre=0):
+        return {"w": w, "hr20": hr20, "hre": hre, "neg": neg, "n0": n0, "n1": n1}
+    m_a = {"E": 12000, "d": [1.0, 0.0, 0.5], "modes": [mode(300, 60, 1, 12)]}
+    m_b = {"E": 12300, "d": [0.0, 1.5, 0.0], "modes": [mode(450, 24, 2, 9, neg=True)]}
+    m_c = {"E": 11900, "d": [0.5, 0.5, 0.0], "modes": []}
+    m_d = {"E": 12100, "d": [1.0, 1.0, 0.0], "modes": [mode(200, 10, 2, 2), mode(200, 10, 2, 2, hre=2)]}
+    base = {"kind": "system", "fem_full": False, "diagonalize_first": False, "coupling_units": "1/cm"}
+    yield dict(base, mols=[m_a, m_c], J=[[0, 120], [120, 0]], mult=1)
+    yield dict(base, mols=[m_a, m_b], J=[[0, -90], [-90, 0]], mult=1)
+    yield dict(base, mols=[m_b, m_c, m_d], J=[[0, 80, 30], [80, 0, -60], [30, -60, 0]], mult=2, coupling_units="eV")
+    yield dict(base, mols=[m_d, m_c], J=[[0, 150], [150, 0]], mult=2, fem_full=True)
+    yield dict(base, mols=[m_d, m_c], J=[[0, 150], [150, 0]], mult=1, diagonalize_first=True,
+               rebuild={"mode": 0, "hr20": 16, "how": "rebuild"})
+
+
 def strategy(tier):
     # "phase": the displacement may be complex (the operator is defined for complex alpha)
     shift = st.builds(lambda k, ph: {"kind": "shift", "k": k, "phase": ph}, st.integers(-300, 300),
